@@ -96,6 +96,7 @@ class WsPeer:
         self.rejected = None
         self.sent_after_close = 0
         self.fail_accept = False   # the connection fails while the WebSocket is being accepted
+        self.paused = False        # back-pressure: a write by the server does not complete until the client resumes reading
 
     def send(self, frame):
         self.to_server.append(frame)
@@ -134,6 +135,8 @@ def make_ws_class(k):
             if k.dead:
                 raise KernelDead()
             p = self.peer
+            if p.paused:
+                k.block(lambda: not p.paused or p.client_closed, None, 'ws.send (back-pressure)')
             if p.client_closed or p.closed_by_server:
                 p.sent_after_close += 1
                 raise OSError('connection closed')
